@@ -96,7 +96,7 @@ def shards(tier):
         for i in range(k):
             out.append({"kind": "tree", "n": n, "slice": [i, k], "thin": tier == "quick" and n == 5})
     out += [{"kind": "value"}, {"kind": "flags"}, {"kind": "bigtable"}, {"kind": "holes"}, {"kind": "many"}, {"kind": "coincide"},
-            {"kind": "free"}, {"kind": "competing"}, {"kind": "headers"}, {"kind": "chain"}, {"kind": "high"}]
+            {"kind": "alive"}, {"kind": "free"}, {"kind": "competing"}, {"kind": "headers"}, {"kind": "chain"}, {"kind": "high"}]
     return out
 
 
@@ -137,6 +137,10 @@ def run_shard(shard, ctx):
         for nt in (226, 227, 228, 240, 300):
             for holes in (0, 1):
                 run_case({"kind": "many", "ntables": nt, "holes": holes}, ctx)
+    elif kind == "alive":
+        for n in (2, 3):
+            for use in itertools.product(range(n), repeat=3):
+                run_case({"kind": "alive", "n": n, "use": list(use)}, ctx)
     elif kind == "coincide":
         # numerically equal values stored under different types in one file (1 / 1.0 / True / unsigned 1, 0 / 0.0 / -0.0 / False)
         for rot in range(9):
@@ -225,6 +229,32 @@ def run_case(case, ctx):
     kind = case["kind"]
     kw = {}
     nontrivial = False
+    if kind == "alive":
+        # two or three files open at once, same layout (file objects at the same offsets), different values: each object
+        # decodes its own file, in whatever order they are opened and used
+        ctx.outcome("value")
+        ctx.nontrivial += 1
+        trees = []
+        for g in range(case["n"]):
+            trees.append({"configuration": (B.T_NODE, {
+                "blob": (B.T_ARR, bytes([0x41 + g]) * 0x900), "text": (B.T_STR, chr(0x61 + g) * 0x480), "i": (B.T_INT, -3600 - g),
+                "n": (B.T_NODE, {"inner": (B.T_ARR, bytes([0x51 + g]) * 0x1000), "u": (B.T_UINT, 7 + g)})})})
+        imgs = [B.build(t, ntables=2) for t in trees]
+        exps = [B.plain(t) for t in trees]
+        with ctx.watch(case):
+            try:
+                hfs = [HyperVFile(io.BytesIO(im)) for im in imgs]
+                for idx in case["use"]:
+                    ctx.transitions += 1
+                    ctx.states += 1
+                    got = hfs[idx].as_dict()
+                    if not _same(got, exps[idx]) or not _walk_values(hfs[idx], exps[idx]):
+                        ctx.violation(case, {"subject": "hyperv.alive", "kind": "tree-mismatch"},
+                                      {"file": idx, "got": repr(got)[:300]})
+                        return
+            except Exception as e:
+                ctx.violation(case, {"subject": "hyperv.alive", "kind": "exception", "exc": type(e).__name__}, {"exception": repr(e)[:300]})
+        return
     if kind == "tree":
         tree = tree_from_shape(forests(case["n"])[case["forest"]], case["forest"])
         kw = dict(placement=case["placement"], ntables=3, table_order=case["order"])
